@@ -237,7 +237,7 @@ func (l *lowerer) attrBody(a *Attr, withDesc bool) []*dt.Node {
 	}
 	b = append(b, l.validation(a)...)
 	if a.Default != nil && !a.DefaultFromAlias {
-		b = append(b, dt.N("Default", valueArg(*a.Default, l.d.Underlying(a))))
+		b = append(b, dt.N("Default", l.defaultArg(a)))
 	}
 	for _, m := range a.Meta {
 		b = append(b, metaNode(m))
@@ -341,6 +341,47 @@ func (l *lowerer) validation(a *Attr) []*dt.Node {
 }
 
 // valueArg renders a value as a DSL argument (Default, Enum).
+// goTypeOf names the Go type a user writes for a literal of a primitive kind.
+var goTypeOf = map[Kind]string{String: "string", Boolean: "bool", Int: "int", Int32: "int32", Int64: "int64", UInt: "uint", UInt32: "uint32", UInt64: "uint64", Float32: "float32", Float64: "float64"}
+
+// defaultArg renders the default of an attribute. Defaults of arrays and maps
+// of primitives are written as typed literals ([]string{…}, map[string]int64{…}),
+// the way a design author writes them: goa copies the Go type of the value into
+// the generated code.
+func (l *lowerer) defaultArg(a *Attr) dt.Arg {
+	arg := valueArg(*a.Default, l.d.Underlying(a))
+	res, _ := l.d.Resolve(a)
+	if res == nil || res.Type == nil {
+		return arg
+	}
+	switch {
+	case res.Type.Kind == Array && arg.Kind == "list":
+		if t, ok := goTypeOf[l.d.Underlying(res.Type.Elem)]; ok {
+			arg.Typ = "[]" + t
+			for i, e := range a.Default.A {
+				arg.List[i] = untyped(valueArg(e, l.d.Underlying(res.Type.Elem)))
+			}
+		}
+	case res.Type.Kind == Map && arg.Kind == "strmap" && l.d.Underlying(res.Type.Key) == String:
+		if t, ok := goTypeOf[l.d.Underlying(res.Type.Val)]; ok {
+			arg.Typ = "map[string]" + t
+			for i := 0; i+1 < len(a.Default.A); i += 2 {
+				arg.List[i/2] = untyped(valueArg(a.Default.A[i+1], l.d.Underlying(res.Type.Val)))
+			}
+		}
+	}
+	return arg
+}
+
+// untyped drops the conversion from an element of a typed literal ([]int64{1}, not []int64{int64(1)}).
+func untyped(a dt.Arg) dt.Arg {
+	if a.Kind == "uint" {
+		return dt.Arg{Kind: "int", I: int64(a.U)}
+	}
+	a.Typ = ""
+	return a
+}
+
 func valueArg(v value.V, k Kind) dt.Arg {
 	switch v.K {
 	case "bool":
@@ -383,6 +424,15 @@ func valueArg(v value.V, k Kind) dt.Arg {
 			l[i] = valueArg(e, "")
 		}
 		return dt.List(l...)
+	case "map":
+		// string-keyed maps only (map[string]any literal)
+		var keys []string
+		var vals []dt.Arg
+		for i := 0; i+1 < len(v.A); i += 2 {
+			keys = append(keys, v.A[i].S)
+			vals = append(vals, valueArg(v.A[i+1], ""))
+		}
+		return dt.Arg{Kind: "strmap", Keys: keys, List: vals}
 	case "object":
 		var keys []string
 		var vals []dt.Arg
